@@ -87,7 +87,8 @@ def native_roundtrip(seed=0, n_hist=40):
                 except Exception:  # noqa: BLE001
                     pass
             path = os.path.join(d, f"r{h}.json")
-            native.run(Persistence(gw.nodes, path).save())
+            saver = Persistence(gw.nodes, path)
+            native.run(saver.save())
             back = {}
             n += 1
             try:
@@ -99,6 +100,17 @@ def native_roundtrip(seed=0, n_hist=40):
                 nodes = back
             if rm.real_view(G) != rm.real_view(gw):
                 return {"saved": str(rm.real_view(gw))[:300], "loaded": str(rm.real_view(G))[:300], "observed": "registry differs after save/load"}, n
+            # the object that saved is the one that loads after a reconnect: the same Persistence reads its own file back, twice
+            want = rm.real_view(gw)
+            for k in range(2):
+                gw.nodes.clear()
+                n += 1
+                try:
+                    native.run(saver.load())
+                except Exception as e:  # noqa: BLE001
+                    return {"history_registry": str(want)[:300], "observed": f"load #{k + 1} by the Persistence object that saved the file raised {type(e).__name__}: {e}"[:300]}, n
+                if rm.real_view(gw) != want:
+                    return {"saved": str(want)[:300], "loaded": str(rm.real_view(gw))[:300], "observed": f"registry differs after load #{k + 1} by the Persistence object that saved the file"}, n
         legacy = {"1": {"sensor_id": 1, "type": 17, "protocol_version": "2.2", "sketch_name": None, "sketch_version": None, "battery_level": 5, "heartbeat": 0,
                         "children": {"3": {"id": 3, "type": 6, "description": "d", "values": {"0": "20"}}}}}
         nat = {"1": {"node_id": 1, "node_type": 17, "protocol_version": "2.2", "sketch_name": "", "sketch_version": "", "battery_level": 5, "heartbeat": 0,
@@ -131,7 +143,7 @@ def replay(world, ob):
 def bounded(world, tier, seed, rep):
     f, n = native_roundtrip(seed, 40 if tier == "quick" else 1500)
     return {"label": "bounded", "scope": "registries reached by random histories over 16 lines (battery 150/-3/100/0, non-ASCII and empty strings, negative and huge "
-            "type numbers) saved and loaded through real files; one legacy-vs-native file pair", "evaluations": n, "native_failure": f}
+            "type numbers) saved and loaded through real files, by a fresh Persistence object and twice by the one that saved; one legacy-vs-native file pair", "evaluations": n, "native_failure": f}
 
 
 def bounded_search(world, unit_name):
